@@ -91,6 +91,11 @@ def run(cx):
     # the only sender-side drop is the stale-TimeSensitive one (shared with C12.b)
     from props.C12 import drop_guard
     drop_guard(cx, "C05.d")
+    # on an ideal network a packet can only go missing if the sender lets the receiver skip it
+    # (resync while fragments await sending) or admits it beyond what the receiver will store
+    from props.C02 import inst_resync_guard, inst_emit_guards
+    inst_resync_guard(cx, "C05.f")
+    inst_emit_guards(cx, "C05.g")
     with cx.instance("C05.e", "T3 WHO-MAY", "the send queue loses packets only through the stale-TimeSensitive drop and the move into the send window", floor=2) as inst:
         b = R.body("PacketSender::emit_packet")
         pops = call_sites(b, "VecDeque::pop_front", r"arg1\.packet_send_queue")
